@@ -509,7 +509,7 @@ impl TreeSpace {
 
         if self.mon.lower_immutable {
             for e in log {
-                let lower_node = node_is_lower(&self.cfg, &e.node);
+                let lower_node = entry_is_lower(&self.cfg, e);
                 if is_mutating(e.method) && lower_node {
                     vio.push((
                         format!("{}|mutating-call-on-lower-layer|{}", head, e.method),
@@ -625,7 +625,7 @@ impl TreeSpace {
                         l.method,
                         if l.node == "0" {
                             "top"
-                        } else if node_is_lower(&self.cfg, &l.node) {
+                        } else if entry_is_lower(&self.cfg, l) {
                             "lower"
                         } else {
                             "underlying"
@@ -671,7 +671,7 @@ impl TreeSpace {
                 }
             }
             for l in &log {
-                if is_mutating(l.method) && node_is_lower(&self.cfg, &l.node) {
+                if is_mutating(l.method) && entry_is_lower(&self.cfg, l) {
                     bad = Some((
                         "mutating-call-on-lower-layer".into(),
                         format!(
@@ -783,8 +783,11 @@ pub fn apply_sess(b: &Built, op: &Op) -> Outcome {
     }
 }
 
-pub fn node_is_lower(cfg: &Cfg, node: &str) -> bool {
-    let idx: Vec<usize> = node
+/// Is a recorded call (node id, path, destination) a call into a lower layer of some overlay?
+/// For overlays whose layers share one filesystem the path decides, otherwise the node does.
+pub fn entry_is_lower(cfg: &Cfg, e: &LogEntry) -> bool {
+    let idx: Vec<usize> = e
+        .node
         .split('.')
         .skip(1)
         .filter_map(|s| s.parse().ok())
@@ -798,11 +801,34 @@ pub fn node_is_lower(cfg: &Cfg, node: &str) -> bool {
                 }
                 cur = &layers[i];
             }
+            Cfg::OvShared(_, dirs) => {
+                // the single shared filesystem: lower iff the call names something below a lower directory
+                let below_lower = |p: &str| dirs[1..].iter().any(|d| is_within(p, d));
+                let dest_lower = e.dest.as_deref().map(below_lower).unwrap_or(false);
+                return match e.method {
+                    // copying out of a lower directory does not touch it
+                    "copy_file" => dest_lower,
+                    _ => below_lower(&e.path) || dest_lower,
+                };
+            }
             Cfg::Alt(inner, _) | Cfg::Sub(inner, _, _) => cur = inner,
             _ => return false,
         }
     }
     false
+}
+
+pub fn node_is_lower(cfg: &Cfg, node: &str) -> bool {
+    entry_is_lower(
+        cfg,
+        &LogEntry {
+            node: node.to_string(),
+            method: "",
+            path: String::new(),
+            dest: None,
+            injected: false,
+        },
+    )
 }
 
 /// Deep snapshot (type, bytes, created, modified) of every lower base, via raw handles.
@@ -812,8 +838,14 @@ pub fn lower_deep(b: &Built) -> Vec<Vec<String>> {
         .filter(|base| base.lower)
         .map(|base| {
             let mut v = vec![];
-            let mut items: Vec<VfsPathBox> = vec![base.raw.clone()];
-            if let Ok(w) = base.raw.walk() {
+            // (only what lies below the layer's own directory: several layers may share one filesystem)
+            let start = if base.prefix.is_empty() {
+                base.raw.clone()
+            } else {
+                base.raw.join(&base.prefix[1..]).expect("HARNESS: base prefix")
+            };
+            let mut items: Vec<VfsPathBox> = vec![start.clone()];
+            if let Ok(w) = start.walk() {
                 items.extend(w.into_iter().flatten());
             }
             for p in items {
